@@ -85,6 +85,9 @@ func (v AV) canon(sb *strings.Builder) {
 			sb.WriteString("f")
 		}
 	case "NULL":
+		if v.Bool {
+			sb.WriteString("false") // NULL:false, not a valid value: kept distinguishable
+		}
 	case "L":
 		sb.WriteByte('[')
 		for i, e := range v.L {
